@@ -107,8 +107,9 @@ theorem selectRecv_leftDone {st : State α} {q} (h : LeftDone st q) : LeftDone (
 theorem selectBody_leftDone {st : State α} {q} (h : LeftDone st q) : LeftDone (selectBody st).1 q := by
   unfold selectBody
   split
-  · rw [if_pos h.cached]
-    exact recvRight_leftDone (st := { st with firstMessage := false }) ⟨h.cached, h.term, h.queue⟩
+  · simp only [h.cached, if_true]
+    have := recvRight_leftDone h
+    exact ⟨this.cached, this.term, this.queue⟩
   · split
     · exact ⟨by simp [h.cached], by simp [h.term], h.queue⟩
     · split
@@ -218,9 +219,9 @@ theorem selectBody_prepare_rightDone {st : State α} {q} (h : RightDone st q) :
   have hp := prepare_rightDone h
   unfold selectBody
   split
-  · rw [if_neg (by simp [hp.other])]
-    exact recvLeft_rightDone (st := { prepare st with firstMessage := false })
-      ⟨hp.cached, hp.other, hp.term, hp.queue, hp.inst, hp.fresh, hp.otherFin⟩
+  · simp only [hp.other, Bool.false_eq_true, if_false]
+    have := recvLeft_rightDone hp
+    exact ⟨this.cached, this.other, this.term, this.queue, this.inst, this.fresh, this.otherFin⟩
   · rw [if_neg (by simp [hp.other])]
     split
     · refine ⟨by simp [hp.cached], hp.other, by simp [hp.term], hp.queue, hp.inst, ?_, hp.otherFin⟩
